@@ -45,7 +45,7 @@ Definition ofile := (Z * Z * list Z)%type.
 Record hist_case := mkHist {
   hc_h : Z;                       (* bytes of the header entries of each new file *)
   hc_max0 : Z;                    (* LogFileMaxSize at the start *)
-  hc_planted : list (Z * Z);      (* files put in the directory beforehand: stamp, size *)
+  hc_planted : list (Z * Z * list Z);  (* files put in the directory beforehand: stamp, size, message ids *)
   hc_ops : list hop;
   hc_snaps : list (list ofile);   (* the directory, oldest first, after every HSnap, HPeek and HGc *)
   hc_fetch : option (list Z)      (* FetchEntriesFromFiles at the end, chronological *)
@@ -81,7 +81,7 @@ Fixpoint osnaps_eqb (a : list (list (Z * list Z))) (b : list (list ofile)) : boo
   end.
 
 Definition hist_model_bad (c : hist_case) : bool :=
-  let planted := sort_desc (map (fun p => mkFile (fst p) (snd p) []) (hc_planted c)) in
+  let planted := sort_desc (map (fun p => mkFile (fst (fst p)) (snd (fst p)) (snd p)) (hc_planted c)) in
   let snaps := rrun_snaps (hc_h c) (init_state planted (hc_max0 c)) (map to_rop (hc_ops c)) in
   negb (osnaps_eqb snaps (hc_snaps c)).
 
@@ -151,8 +151,8 @@ Fixpoint hist_walk (prev : list ofile) (pending : list Z) (ops : list hop) (snap
   end.
 
 Definition hist_oracle_bad (c : hist_case) : bool :=
-  let planted := rev (sort_desc (map (fun p => mkFile (fst p) (snd p) []) (hc_planted c))) in
-  let prev := map (fun f => (f_stamp f, f_size f, @nil Z)) planted in
+  let planted := rev (sort_desc (map (fun p => mkFile (fst (fst p)) (snd (fst p)) (snd p)) (hc_planted c))) in
+  let prev := map (fun f => (f_stamp f, f_size f, f_msgs f)) planted in
   negb (hist_walk prev [] (hc_ops c) (hc_snaps c)
         && match hc_fetch c with
            | Some ids => list_eqb Z.eqb ids (ids_of (last (hc_snaps c) []))
@@ -165,6 +165,9 @@ Fixpoint no_hgc (ops : list hop) : bool :=
 Fixpoint hlogged (ops : list hop) : list Z :=
   match ops with [] => [] | HLog id _ :: tl => id :: hlogged tl | _ :: tl => hlogged tl end.
 
-(** without GC, the last snapshot reads back every logged message once, in order *)
+(** without GC, the last snapshot reads back the messages of the files that were
+    there before (oldest first) and then every logged message once, in order *)
 Definition hist_lossless_bad (c : hist_case) : bool :=
-  no_hgc (hc_ops c) && negb (list_eqb Z.eqb (ids_of (last (hc_snaps c) [])) (hlogged (hc_ops c))).
+  let planted := rev (sort_desc (map (fun p => mkFile (fst (fst p)) (snd (fst p)) (snd p)) (hc_planted c))) in
+  no_hgc (hc_ops c) &&
+  negb (list_eqb Z.eqb (ids_of (last (hc_snaps c) [])) (concat (map f_msgs planted) ++ hlogged (hc_ops c))).
